@@ -61,3 +61,26 @@ func zzC13f2QuicFraming() {
 	vf.Assert("reader-returns-the-same-messages-one-per-call", r1 == nil && r2 == nil && bytes.Equal(g1, m1) && bytes.Equal(g2, m2))
 	vf.Reach("end")
 }
+
+// C13.g: large, highly compressible messages through the per-message compression step
+// (encodeWithCompression / decodeWithCompression): what the reader inflates is the message, byte for
+// byte and in full length, also when the frame is as short as DEFLATE permits for it (compress/flate
+// is replaced by a stub whose frame for a run of one byte value has the minimal DEFLATE length,
+// n/1032 bytes plus a small header; the reader must accept every valid frame, whoever produced it).
+func zzC13gCompressibleMessages() {
+	sizes := [...]int{2 << 20, 400000, 70000, 65536, 1024}
+	n := sizes[vf.Choose("size", len(sizes))]
+	v := [...]byte{0, 'a', 0xff}[vf.Choose("value", 3)]
+	level := [...]int{6, 9, 1}[vf.Choose("level", 3)]
+	msg := bytes.Repeat([]byte{v}, n)
+	frame, err := encodeWithCompression(msg, level)
+	vf.Assert("compresses", err == nil)
+	if err != nil {
+		return
+	}
+	back, err := decodeWithCompression(frame)
+	vf.Assert("inflates", err == nil)
+	vf.Assert("full-length", len(back) == n)
+	vf.Assert("byte-for-byte", bytes.Equal(back, msg))
+	vf.Reach("end")
+}
